@@ -284,7 +284,7 @@ fn enc_kind(cx: &Ctx, k: &AuditKind, t: &mut Toks) {
             t.n(1).n(cx.vers.iter().position(|x| x == from).unwrap()).n(cx.vers.iter().position(|x| x == to).unwrap());
         }
         AuditKind::Violation { violation } => {
-            let m: Vec<usize> = cx.vers.iter().enumerate().filter(|(_, v)| violation.matches(v)).map(|(i, _)| i).collect();
+            let m: Vec<usize> = cx.vers.iter().enumerate().filter(|(_, v)| violation.0.matches(&v.semver)).map(|(i, _)| i).collect();
             t.n(2).list(&m);
         }
     }
